@@ -5,7 +5,7 @@ CONSTANTS
   CleanupTargets = {"K1", "K2"}
   Keys = {"x", "y"}
   Vals = {"1", "2", "3"}
-  MaxLoops = 3
+  MaxLoops = 1
   Construct = TRUE
   Concurrent = TRUE
 CONSTRAINT Track
